@@ -19,11 +19,11 @@ for p in props:
 m={"version":1,
  "setup_cmd":"cd /verif && ./check build",
  "hooks":{"guard":"verif","enable":"go test -c -tags verif (the harness module /verif replaces github.com/echovault/sugardb => /repo and compiles the current working tree)",
-          "baseline_off_cmd":"cd /repo && GOFLAGS=-mod=mod go test -vet=off -count=1 -timeout 25m ./...","source_commits":src,"add_only":True},
+          "baseline_off_cmd":"cd /repo && GOFLAGS=-mod=mod go test -vet=off -count=1 -timeout 25m ./...","source_commits":src,"add_only":False},
  "engines":[{"name":"dsim","path":"/verif/dsim","serves_properties":[c["property_id"] for c in checks],
    "kind_free_text":"deterministic simulator: testing/synctest bubble + yield-hook controller + simulated connections + shadow-durability disk; seeded plans, shrinking, exact replay"}],
  "checks":checks,
- "notes":"Known genuine defects are listed in /verif/KNOWN_FINDINGS.json (open = reported as KNOWN-FINDING lines; fixed = repaired by a fix: commit in /repo and guarded by a witness replay). Add-only note: raft.go/memberlist.go may get a '//go:build !verif' line with _verif.go twins (see DESIGN.md §4).",
+ "notes":"Known genuine defects are listed in /verif/KNOWN_FINDINGS.json (open = reported as KNOWN-FINDING lines; fixed = repaired by a fix: commit in /repo and guarded by a witness replay). add_only is false because of exactly two rewritten lines: in sugardb/sugardb.go the store lock's field type and its constructor changed from sync.RWMutex to storeRWMutex, which is a type ALIAS of sync.RWMutex without the verif tag (sugardb/storelock.go) and a yielding wrapper with it; everything else the hook commits do is added lines (including the '//go:build !verif' line on internal/raft/raft.go and internal/memberlist/memberlist.go, whose verif-only twins register the real FSM and gossip delegate with the simulator). See DESIGN.md §4.",
  "not_applicable":na}
 json.dump(m,open(V+"/MANIFEST.json","w"),indent=1)
 print("claimed:",[c["property_id"] for c in checks])
